@@ -119,7 +119,15 @@ func cmdCheck(args []string) {
 	jobs := fl.Int("j", 6, "parallel obligations")
 	baseline := fl.Bool("write-expected", false, "write expected/<id>.txt from this run (unchanged tree only)")
 	verbose := fl.Bool("v", false, "verbose")
+	var ovs multiFlag
+	fl.Var(&ovs, "overlay-file", "real=replacement (repeatable): analyse and replay with a file replaced")
 	fl.Parse(args)
+	for _, o := range ovs {
+		real, repl, ok := strings.Cut(o, "=")
+		if ok {
+			overlayFiles[real] = repl
+		}
+	}
 	if *prop == "" {
 		fmt.Fprintln(os.Stderr, "check: -prop required")
 		os.Exit(2)
@@ -381,6 +389,11 @@ func cmdCheck(args []string) {
 		os.Exit(2)
 	}
 }
+
+type multiFlag []string
+
+func (m *multiFlag) String() string     { return strings.Join(*m, ",") }
+func (m *multiFlag) Set(v string) error { *m = append(*m, v); return nil }
 
 func firstLines(s string, n int) string {
 	lines := strings.Split(s, "\n")
